@@ -107,6 +107,19 @@ func (c *choiceCasesResolver) GetElementNames() []string {
 	return result
 }
 
+// getCaseElementNames returns the names of the elements that belong to the given case
+func (c *choiceCasesResolver) getCaseElementNames(caseName string) []string {
+	cas, exists := c.cases[caseName]
+	if !exists {
+		return nil
+	}
+	result := make([]string, 0, len(cas.elements))
+	for elemName := range cas.elements {
+		result = append(result, elemName)
+	}
+	return result
+}
+
 // choicesCase is the representation of a case in the choiceCasesResolver.
 type choicesCase struct {
 	name     string
